@@ -12,3 +12,6 @@ open Femio.C18
 #print axioms C18_positive
 #print axioms C18_pyr_counterexample
 #print axioms C18_permute_table
+#print axioms C18_positive_any_history
+#print axioms C18_positive_history_partial
+#print axioms C18_stored_metric_counterexample
